@@ -379,6 +379,18 @@ Proof.
   - intros I. right. apply in_map, I.
 Qed.
 
+Theorem net_ascending pv prev cur :
+  owf prev -> owf cur ->
+  ksorted (map ckey (net prev cur pv)) /\ NoDup (map ckey (net prev cur pv)).
+Proof. intros Wp Wc. split; [apply net_sorted|apply net_NoDup]; assumption. Qed.
+
+(** what the net change lists *)
+Theorem net_members pv prev cur k v :
+  (In (CSet k v) (net prev cur pv) <-> In (k, v) (sets_of pv cur)) /\
+  (In (CDel k) (net prev cur pv) <->
+     In k (map fst (oelems prev)) /\ ~ In k (map fst (oelems cur))).
+Proof. split; [apply net_set_In|]. rewrite net_del_In. apply dels_In. Qed.
+
 (** ** Theorem 1: the net change applied to the previous contents gives the new contents.
     Version consistency: a leaf of [cur] not created after [pv] is a leaf of [prev]. *)
 Theorem apply_net pv prev cur :
@@ -1905,7 +1917,10 @@ Section WorkingTrees.
   Qed.
 
   Lemma clean_new_inner k h z l r : clean l -> clean r -> clean (Inner k h z new_meta l r).
-  Proof. intros Cl Cr. cbn [clean]. change (is_new (Inner k h z new_meta l r)) with true. auto. Qed.
+  Proof.
+    intros Cl Cr. cbn [clean]. change (is_new (Inner k h z new_meta l r)) with true. cbv iota.
+    split; assumption.
+  Qed.
 
   Lemma clean_mk k l r : clean l -> clean r -> clean (mk k l r).
   Proof. apply clean_new_inner. Qed.
@@ -1988,13 +2003,13 @@ Section WorkingTrees.
     induction t as [k v m|k h z m l IHl r IHr]; intros n C.
     - rewrite stamp_leaf. cbn [clean] in C. destruct (is_new (Leaf k v m)) eqn:E; cbn [negb fst snd].
       + split; [lia|]. split; [|split; [|split]].
-        * intros s [<-|[]]. right. unfold fresh. cbn [nmeta ver nonce]. lia.
-        * intros x y [<-|[]] [<-|[]] _ _ _. reflexivity.
+        * intros s [->|[]]. right. unfold fresh. cbn [nmeta ver nonce]. lia.
+        * intros x y [->|[]] [->|[]] _ _ _. reflexivity.
         * exact Logic.I.
         * cbn [nmeta ver]. lia.
       + split; [lia|]. split; [|split; [|split]].
         * intros s S. left. exact (B2 _ _ C S).
-        * intros x y [<-|[]] [<-|[]] _ _ _. reflexivity.
+        * intros x y [->|[]] [->|[]] _ _ _. reflexivity.
         * exact Logic.I.
         * apply B1 in C. lia.
     - rewrite stamp_inner. destruct (is_new (Inner k h z m l r)) eqn:E; cbn [negb].
@@ -2008,12 +2023,12 @@ Section WorkingTrees.
         assert (Frr : forall s, subtree s r' -> ver (nmeta s) = wv -> n1 < nonce (nmeta s) <= n2).
         { intros s S V. destruct (Sr s S) as [B|F]; [apply B1 in B; lia|apply F]. }
         split; [lia|]. split; [|split; [|split]].
-        * intros s [<-|[S|S]].
+        * intros s [->|[S|S]].
           -- right. unfold fresh. cbn [nmeta ver nonce]. lia.
           -- destruct (Sl s S) as [B|[F1 F2]]; [left; exact B|right; unfold fresh; lia].
           -- destruct (Sr s S) as [B|[F1 F2]]; [left; exact B|right; unfold fresh; lia].
         * intros x y Sx Sy Vx Vy Nxy. cbn [subtree] in Sx, Sy.
-          destruct Sx as [<-|[Sx|Sx]]; destruct Sy as [<-|[Sy|Sy]]; auto;
+          destruct Sx as [->|[Sx|Sx]]; destruct Sy as [->|[Sy|Sy]]; auto;
             cbn [nmeta nonce] in Nxy;
             try (pose proof (Frl _ Sx Vx)); try (pose proof (Frr _ Sx Vx));
             try (pose proof (Frl _ Sy Vy)); try (pose proof (Frr _ Sy Vy)); lia.
@@ -2026,3 +2041,338 @@ Section WorkingTrees.
         * apply B1 in C. lia.
   Qed.
 End WorkingTrees.
+
+(** ** One version step *)
+
+(** what holds of a persisted tree of version [j] *)
+Definition persisted (j : Z) (t : option node) : Prop :=
+  (forall s, osubtree s t -> 0 < ver (nmeta s) <= j) /\ over_mono t /\
+  (forall x y, osubtree x t -> osubtree y t -> nk x = nk y -> x = y).
+
+(** a working tree on top of the persisted tree [prev] *)
+Definition oclean (prev w : option node) : Prop :=
+  match w with None => True | Some n => clean (fun s => osubtree s prev) n end.
+
+Definition stamp_root (H : bytes -> bytes) (wv : Z) (w : option node) : option node :=
+  match w with None => None | Some n => Some (fst (stamp H wv 0 n)) end.
+
+Lemma osubtree_trans a b o : subtree a b -> osubtree b o -> osubtree a o.
+Proof. destruct o; cbn [osubtree]; [apply subtree_trans|auto]. Qed.
+
+Lemma persisted_base j prev :
+  persisted j prev ->
+  (forall s, osubtree s prev -> 0 < ver (nmeta s) < j + 1) /\
+  (forall s s2, osubtree s prev -> subtree s2 s -> osubtree s2 prev) /\
+  (forall s, osubtree s prev -> ver_mono s).
+Proof.
+  intros (V & M & _). split; [|split].
+  - intros s S. specialize (V s S). lia.
+  - intros s s2 S S2. exact (osubtree_trans _ _ _ S2 S).
+  - intros s S. destruct prev as [p|]; [|destruct S]. exact (ver_mono_sub _ _ M S).
+Qed.
+
+Theorem version_step H j prev w :
+  0 <= j -> persisted j prev -> oclean prev w ->
+  let cur := stamp_root H (j + 1) w in
+  persisted (j + 1) cur /\ shared_in_prev j prev cur /\ keys_identify prev cur.
+Proof.
+  intros Hj P C cur. destruct (persisted_base j prev P) as (B1 & B2 & B4).
+  destruct P as (PV & PM & PU).
+  destruct w as [n|]; cbn [stamp_root] in cur; subst cur.
+  2:{ unfold persisted, shared_in_prev, keys_identify; cbn [osubtree over_mono]; intuition. }
+  cbn [oclean] in C.
+  destruct (stamp_clean (fun s => osubtree s prev) (j + 1) B1 B2 B4 H n 0 C) as (_ & S & U & M & _).
+  set (t' := fst (stamp H (j + 1) 0 n)) in *. cbn [osubtree over_mono].
+  assert (Cases : forall s, subtree s t' ->
+            (osubtree s prev /\ 0 < ver (nmeta s) <= j) \/ ver (nmeta s) = j + 1).
+  { intros s Ss. destruct (S s Ss) as [B|[F _]]; [left; split; [exact B|apply PV, B]|right; exact F]. }
+  assert (NK : forall x y, nk x = nk y ->
+            ver (nmeta x) = ver (nmeta y) /\ nonce (nmeta x) = nonce (nmeta y)).
+  { intros x y E. unfold nk in E. inversion E. auto. }
+  split; [split; [|split]|split].
+  - intros s Ss. destruct (Cases s Ss) as [[_ V]|V]; lia.
+  - exact M.
+  - intros x y Sx Sy E. destruct (NK _ _ E) as [Ev En].
+    destruct (Cases x Sx) as [[Bx Vx]|Vx]; destruct (Cases y Sy) as [[By Vy]|Vy]; try lia.
+    + apply PU; assumption.
+    + apply U; auto.
+  - intros s Ss V. destruct (Cases s Ss) as [[B _]|V']; [exact B|lia].
+  - intros x y Sx Sy E. destruct (NK _ _ E) as [Ev En].
+    destruct (Cases y Sy) as [[By _]|Vy].
+    + apply PU; assumption.
+    + pose proof (PV x Sx). lia.
+Qed.
+
+(** * 14. Histories of writes and saves on the MutableTree machine *)
+Definition vtree (s : mstate) (v : Z) : option node :=
+  match lookup v (forest s) with Some r => r | None => None end.
+
+Definition good_pair (pv : Z) (prev cur : option node) : Prop :=
+  owf prev /\ owf cur /\ over_mono cur /\ shared_in_prev pv prev cur /\ keys_identify prev cur.
+
+Record hist_inv (s : mstate) : Prop := HistInv {
+  hi_inv : state_inv s;
+  hi_set : init_set s = false;
+  hi_top : forall w, version s < w -> lookup w (forest s) = None;
+  hi_low : forall w, w < 1 -> lookup w (forest s) = None;
+  hi_saved : last_saved s = vtree s (version s);
+  hi_base : persisted (version s) (vtree s (version s));
+  hi_root : oclean (vtree s (version s)) (root s);
+  hi_pairs : forall v, 1 <= v <= version s ->
+     exists cur, lookup v (forest s) = Some cur /\ good_pair (v - 1) (vtree s (v - 1)) cur
+}.
+
+(** the operations of such a history: writes, saves, rollbacks and everything read-only *)
+Definition hist_op (o : op) : bool :=
+  match o with
+  | OReopen | OLoad _ | OPrune _ | OLvfo _ => false
+  | _ => true
+  end.
+
+Lemma hist_inv_init : hist_inv (init_state 0 false).
+Proof.
+  constructor; cbn [init_state init_set version forest last_saved root lookup vtree oclean]; auto.
+  - apply state_inv_init. lia.
+  - unfold persisted. cbn [osubtree over_mono]. intuition.
+  - intros v Hv. lia.
+Qed.
+
+Lemma hist_inv_root s r' :
+  hist_inv s -> state_inv (MState r' (version s) (last_saved s) (forest s) (init_ver s) (init_set s) (init_opt s)) ->
+  oclean (vtree s (version s)) r' ->
+  hist_inv (MState r' (version s) (last_saved s) (forest s) (init_ver s) (init_set s) (init_opt s)).
+Proof.
+  intros HI I C. destruct HI. constructor; cbn [init_set version forest last_saved root]; auto.
+Qed.
+
+Section History.
+  Variable H : bytes -> bytes.
+
+  Lemma hist_set s k v : hist_inv s -> hist_inv (fst (do_set s k v)).
+  Proof.
+    intros HI. pose proof (do_set_inv s k v (hi_inv s HI)) as I1.
+    destruct (persisted_base _ _ (hi_base s HI)) as (B1 & B2 & B4).
+    pose proof (hi_root s HI) as C. unfold do_set in *.
+    destruct (root s) as [n|] eqn:R.
+    - pose proof (clean_set _ _ B1 B2 n k v C) as C'.
+      destruct (set n k v) as [n' upd]. cbn [fst] in *. apply hist_inv_root; auto.
+    - cbn [fst] in *. apply hist_inv_root; auto; exact Logic.I.
+  Qed.
+
+  Lemma hist_remove s k : hist_inv s -> hist_inv (fst (do_remove s k)).
+  Proof.
+    intros HI. pose proof (do_remove_inv s k (hi_inv s HI)) as I1.
+    destruct (persisted_base _ _ (hi_base s HI)) as (B1 & B2 & B4).
+    pose proof (hi_root s HI) as C. unfold do_remove in *. cbv zeta in *.
+    destruct (root s) as [n|] eqn:R; [|exact HI].
+    pose proof (clean_remove _ _ B1 B2 n k C) as C'.
+    destruct (rm_val (remove n k)); [|exact HI]. cbn [fst] in *.
+    apply hist_inv_root; auto.
+  Qed.
+
+  Lemma hist_rollback s :
+    hist_inv s ->
+    hist_inv (MState (if 0 <? version s then last_saved s else None) (version s) (last_saved s)
+                     (forest s) (init_ver s) (init_set s) (init_opt s)).
+  Proof.
+    intros HI. apply hist_inv_root; auto.
+    - apply rollback_inv, HI.
+    - destruct (0 <? version s); [|exact Logic.I]. rewrite (hi_saved s HI).
+      destruct (persisted_base _ _ (hi_base s HI)) as (B1 & B2 & B4).
+      destruct (vtree s (version s)) as [t|] eqn:E; [|exact Logic.I]. cbn [oclean].
+      apply (clean_base _ _ B1). cbn [osubtree]. apply subtree_refl.
+  Qed.
+
+  Lemma vtree_snoc s wv r' w :
+    lookup wv (forest s) = None ->
+    vtree (MState r' wv r' (forest s ++ [(wv, r')]) (init_ver s) false (init_opt s)) w =
+      if w =? wv then r' else vtree s w.
+  Proof.
+    intros L. unfold vtree. cbn [forest]. rewrite (lookup_snoc w wv r' _ L).
+    destruct (w =? wv); reflexivity.
+  Qed.
+
+  Lemma hist_save s : hist_inv s -> hist_inv (fst (do_save H s)).
+  Proof.
+    intros HI. pose proof (hi_inv s HI) as I. pose proof (do_save_inv H s I) as I1.
+    pose proof (inv_version s I) as V0.
+    assert (WV : working_version s = version s + 1).
+    { unfold working_version. rewrite (hi_set s HI), andb_false_r. reflexivity. }
+    assert (L : lookup (version s + 1) (forest s) = None) by (apply (hi_top s HI); lia).
+    assert (E : do_save H s = saved_state H s (stamp_root H (version s + 1) (root s))).
+    { unfold do_save, version_exists, saved_state. cbv zeta. rewrite WV, L. reflexivity. }
+    rewrite E in *. unfold saved_state in *. rewrite WV in *. cbn [fst] in *.
+    set (wv := version s + 1) in *. set (r' := stamp_root H wv (root s)) in *.
+    destruct (version_step H (version s) _ (root s) V0 (hi_base s HI) (hi_root s HI)) as (P' & SP & KI).
+    fold wv in P'. fold r' in P', SP, KI.
+    assert (VT : forall w, vtree (MState r' wv r' (forest s ++ [(wv, r')]) (init_ver s) false (init_opt s)) w =
+                            if w =? wv then r' else vtree s w).
+    { intros w. apply vtree_snoc, L. }
+    constructor; cbn [init_set version forest last_saved root].
+    - exact I1.
+    - reflexivity.
+    - intros w Hw. rewrite lookup_app, (hi_top s HI) by lia. cbn [lookup].
+      replace (wv =? w) with false by (symmetry; apply Z.eqb_neq; lia). reflexivity.
+    - intros w Hw. rewrite lookup_app, (hi_low s HI) by lia. cbn [lookup].
+      replace (wv =? w) with false by (symmetry; apply Z.eqb_neq; lia). reflexivity.
+    - rewrite VT, Z.eqb_refl. reflexivity.
+    - rewrite VT, Z.eqb_refl. exact P'.
+    - rewrite VT, Z.eqb_refl. destruct (persisted_base _ _ P') as (B1 & B2 & B4).
+      destruct r' as [t'|] eqn:Er; [|exact Logic.I]. cbn [oclean].
+      apply (clean_base _ _ B1). cbn [osubtree]. apply subtree_refl.
+    - intros v Hv. rewrite VT.
+      replace (v - 1 =? wv) with false by (symmetry; apply Z.eqb_neq; lia).
+      destruct (Z.eq_dec v wv) as [->|NE].
+      + exists r'. split.
+        * rewrite (lookup_snoc wv wv r' _ L), Z.eqb_refl. reflexivity.
+        * replace (wv - 1) with (version s) by lia.
+          assert (Wp : owf (vtree s (version s))).
+          { unfold vtree. destruct (lookup (version s) (forest s)) as [t|] eqn:Lt; [|exact Logic.I].
+            destruct (state_inv_lookup s _ _ I Lt) as [O _]. destruct t; [apply O|exact Logic.I]. }
+          assert (Wc : owf r').
+          { pose proof (inv_root _ I1) as O. cbn [root] in O. destruct r'; [apply O|exact Logic.I]. }
+          destruct P' as (_ & M' & _). repeat split; assumption.
+      + destruct (hi_pairs s HI v ltac:(lia)) as (cur & Lc & G). exists cur. split; [|exact G].
+        rewrite lookup_app, Lc. reflexivity.
+  Qed.
+
+  Lemma hist_step s o : hist_op o = true -> hist_inv s -> hist_inv (fst (step H s o)).
+  Proof.
+    intros Ho HI. destruct o as [k v|k|k| | | |v|n|v|t r|k v|v| | | | | ]; cbn [hist_op] in Ho;
+      try discriminate Ho; cbn [step]; try exact HI.
+    - apply hist_set, HI.
+    - apply hist_remove, HI.
+    - apply hist_save, HI.
+    - cbn [fst]. apply hist_rollback, HI.
+    - destruct t as [|v]; [exact HI|]. destruct (lookup v (forest s)); exact HI.
+    - destruct (lookup v (forest s)) as [[n|]|]; exact HI.
+  Qed.
+
+  Lemma hist_run ops : forall s,
+    forallb hist_op ops = true -> hist_inv s -> hist_inv (fst (run H s ops)).
+  Proof.
+    induction ops as [|o ops IH]; intros s Ho HI; cbn [run]; [exact HI|].
+    cbn [forallb] in Ho. apply andb_true_iff in Ho. destruct Ho as [Ho Hr].
+    pose proof (hist_step s o Ho HI) as H1.
+    destruct (step H s o) as [s1 x]. cbn [fst] in H1.
+    specialize (IH s1 Hr H1). destruct (run H s1 ops) as [s2 xs]. exact IH.
+  Qed.
+
+  (** ** C15 on histories: every saved version of a history of writes, saves and rollbacks
+      from the empty store.  The change set extracted for version [v] is the net change,
+      it lists each key once in ascending order, and applied to the contents of [v - 1] it
+      gives the contents of [v]. *)
+  Theorem history_change_sets ops v cur :
+    forallb hist_op ops = true ->
+    let s := fst (run H (init_state 0 false) ops) in
+    lookup v (forest s) = Some cur ->
+    let prev := vtree s (v - 1) in
+    extract (v - 1) prev cur = Some (net prev cur (v - 1)) /\
+    ksorted (map ckey (net prev cur (v - 1))) /\
+    apply_changes (net prev cur (v - 1)) (oelems prev) = oelems cur.
+  Proof.
+    intros Ho s L prev. pose proof (hist_run ops _ Ho hist_inv_init) as HI. fold s in HI.
+    assert (Hv : 1 <= v <= version s).
+    { split.
+      - destruct (Z_lt_le_dec v 1) as [Lt|Le]; [|exact Le]. rewrite (hi_low s HI v Lt) in L. discriminate L.
+      - destruct (Z_lt_le_dec (version s) v) as [Lt|Le]; [|exact Le]. rewrite (hi_top s HI v Lt) in L. discriminate L. }
+    destruct (hi_pairs s HI v Hv) as (cur' & L' & (Wp & Wc & VM & SP & KI)).
+    rewrite L in L'. inversion L'; subst cur'. fold prev in Wp, SP, KI.
+    split; [apply extract_is_net; assumption|]. split; [apply net_sorted; assumption|].
+    apply apply_net; auto. apply shared_old_leaves, SP.
+  Qed.
+
+  (** the saved trees of a history, versions [j + 1 .. j + n] *)
+  Fixpoint trees_from (s : mstate) (j : Z) (n : nat) : list (option node) :=
+    match n with
+    | O => []
+    | S n' => vtree s (j + 1) :: trees_from s (j + 1) n'
+    end.
+
+  Lemma hist_chain s n : forall j,
+    hist_inv s -> 0 <= j -> j + Z.of_nat n <= version s -> chain j (vtree s j) (trees_from s j n).
+  Proof.
+    induction n as [|n IH]; intros j HI Hj Hn; cbn [trees_from chain]; [exact Logic.I|].
+    destruct (hi_pairs s HI (j + 1) ltac:(lia)) as (cur & L & (Wp & Wc & VM & SP & KI)).
+    replace (j + 1 - 1) with j in * by lia.
+    assert (E : vtree s (j + 1) = cur) by (unfold vtree; rewrite L; reflexivity).
+    rewrite E. split; [exact Wc|]. split; [apply shared_old_leaves, SP|].
+    rewrite <- E. apply IH; auto; lia.
+  Qed.
+
+  Lemma nth_trees_from s n : forall j i,
+    (i < n)%nat -> nth_error (trees_from s j n) i = Some (vtree s (j + 1 + Z.of_nat i)).
+  Proof.
+    induction n as [|n IH]; intros j i Hi; [lia|]. cbn [trees_from]. destruct i as [|i]; cbn [nth_error].
+    - f_equal. f_equal. lia.
+    - rewrite IH by lia. f_equal. f_equal. lia.
+  Qed.
+
+  Lemma vtree_eq s a b : a = b -> vtree s a = vtree s b.
+  Proof. intros ->. reflexivity. Qed.
+  Lemma net_eq a a' b b' c c' : a = a' -> b = b' -> c = c' -> net a b c = net a' b' c'.
+  Proof. intros -> -> ->. reflexivity. Qed.
+
+  (** replaying the extracted change sets of a history into an empty tree (with any hash
+      function [H']) reproduces every version's contents *)
+  Theorem history_replay (H' : bytes -> bytes) ops :
+    forallb hist_op ops = true ->
+    let s := fst (run H (init_state 0 false) ops) in
+    let n := Z.to_nat (version s) in
+    let css := nets 0 None (trees_from s 0 n) in
+    let res := replay H' (init_state 0 false) css in
+    forall v, 1 <= v <= version s ->
+      (exists r, lookup v (forest (fst res)) = Some r /\ oelems r = oelems (vtree s v)) /\
+      (exists o, nth_error (snd res) (Z.to_nat (v - 1)) = Some o /\ saved_out o v) /\
+      nth_error css (Z.to_nat (v - 1)) = Some (net (vtree s (v - 1)) (vtree s v) (v - 1)).
+  Proof.
+    intros Ho s n css res v Hv. pose proof (hist_run ops _ Ho hist_inv_init) as HI. fold s in HI.
+    assert (V0 : vtree s 0 = None) by (unfold vtree; rewrite (hi_low s HI) by lia; reflexivity).
+    assert (Ch : chain 0 None (trees_from s 0 n)).
+    { rewrite <- V0. apply hist_chain; auto; unfold n; lia. }
+    assert (Ni : nth_error (trees_from s 0 n) (Z.to_nat (v - 1)) = Some (vtree s v)).
+    { rewrite nth_trees_from by (unfold n; lia). f_equal. f_equal. lia. }
+    destruct (replay_contents H' _ Ch _ _ Ni) as [C O].
+    replace (Z.of_nat (Z.to_nat (v - 1)) + 1) with v in C, O by lia.
+    split; [exact C|]. split; [exact O|].
+    (* the i-th change set of [nets] *)
+    assert (G : forall m j t i, (i < m)%nat ->
+              nth_error (nets j t (trees_from s j m)) i =
+                Some (net (if (i =? 0)%nat then t else vtree s (j + Z.of_nat i))
+                          (vtree s (j + 1 + Z.of_nat i)) (j + Z.of_nat i))).
+    { induction m as [|m IHm]; intros j t i Hi; [lia|]. cbn [trees_from nets].
+      destruct i as [|i]; cbn [nth_error].
+      - cbn [Nat.eqb]. f_equal. apply net_eq; [reflexivity|apply vtree_eq; lia|lia].
+      - rewrite IHm by lia. f_equal. destruct i as [|i]; cbn [Nat.eqb];
+          (apply net_eq; [apply vtree_eq; lia|apply vtree_eq; lia|lia]). }
+    unfold css. rewrite G by (unfold n; lia). f_equal.
+    destruct (Z.to_nat (v - 1)) as [|i] eqn:Ei; cbn [Nat.eqb].
+    - assert (v = 1) by lia. subst v. rewrite <- V0.
+      apply net_eq; [apply vtree_eq; lia|apply vtree_eq; lia|lia].
+    - apply net_eq; [apply vtree_eq; lia|apply vtree_eq; lia|lia].
+  Qed.
+End History.
+
+(** ** Why the histories above exclude load / prune: in the MTree model, loading an old version,
+    pruning past it and saving creates a version 2 next to a version 3 that was not derived
+    from it.  [extract] and [net] still agree, but the version-consistency hypothesis of
+    Theorem 1 fails and the change set does not lead from the contents of 2 to those of 3.
+    (On the Go code this sequence does not produce such a version: the write after the prune
+    fails on a missing node.) *)
+Module ConsistencyNeeded.
+  Import DiffExamples.
+  Definition ops : list op :=
+    [OSet (k 1) (k 10); OSet (k 2) (k 20); OSet (k 3) (k 30); OSet (k 4) (k 40); OSave;
+     OSet (k 1) (k 11); OSave;
+     OSet (k 4) (k 41); OSave;
+     OLoad 1; OPrune 2; OSet (k 2) (k 22); OSave].
+  Example version_consistency_needed :
+    let s := fst (run Hid (init_state 0 false) ops) in
+    let prev := vtree s 2 in
+    let cur := vtree s 3 in
+    map fst (forest s) = [3; 2] /\
+    extract 2 prev cur = Some (net prev cur 2) /\
+    net prev cur 2 = [CSet (k 4) (k 41)] /\
+    apply_changes (net prev cur 2) (oelems prev) <> oelems cur.
+  Proof. vm_compute. repeat split; try reflexivity. discriminate. Qed.
+End ConsistencyNeeded.
